@@ -221,6 +221,15 @@ def gen_policy_run_case(rng, i):
     return c
 
 
+def gen_stochastic_run_case(rng, i):
+    """a declared pipeline seed + a random model without its own seed: candidates, champions and the returned
+    simulated data are all produced under the seed, so re-simulating the champion reproduces fitness and data"""
+    c = gen_run_case(rng, i % 2)
+    c.update({"algo": ["sade", "sga"][i % 2], "single_parameter": False, "islands": 1 + (i % 2), "evolutions": 2,
+              "stochastic": True, "pipeline_seed": rng.randrange(1, 100000), "result_type": ["pixel", "image"][i % 2]})
+    return c
+
+
 def gen_run_case(rng, i):
     algo = ["sade", "sga", "nlopt"][i % 3]
     # (a multi-readout target with fewer readouts than the simulation cannot be assembled into the result
@@ -244,11 +253,14 @@ def _variables(single):
     return vs
 
 
-def _pipeline():
+def _pipeline(case=None):
     import pyx
 
-    return pyx.make_pipeline({GROUP: [{"name": MODEL, "func": "probes.cal_probe",
-                                      "arguments": {"a": 0.0, "v": [0.0, 0.0], "off": 0.0}}]})
+    groups = {GROUP: [{"name": MODEL, "func": "probes.cal_probe", "arguments": {"a": 0.0, "v": [0.0, 0.0], "off": 0.0}}]}
+    if case is not None and case.get("stochastic"):
+        # a random model WITHOUT its own seed: reproducible only through the declared pipeline seed
+        groups["charge_measurement"] = [{"name": "noise", "func": "probes.noisy_to_image", "arguments": {"scale": 2.0}}]
+    return pyx.make_pipeline(groups)
 
 
 def _write_targets(case, tmp):
@@ -304,7 +316,7 @@ def _problem(case, tmp, single=False):
     from pyxel.pipelines import Processor
 
     paths, wpaths = _write_targets(case, tmp)
-    proc = Processor(detector=pyx.make_detector("CCD", *case["det"]), pipeline=_pipeline())
+    proc = Processor(detector=pyx.make_detector("CCD", *case["det"]), pipeline=_pipeline(case))
     return ModelFittingDataTree(
         processor=proc, variables=_variables(single), readout=_readout(case),
         simulation_output=case.get("result_type", "pixel"), generations=1, population_size=8,
@@ -313,7 +325,7 @@ def _problem(case, tmp, single=False):
         out_fit_range=FitRange3D.from_sequence(case["result_range"]),
         input_arguments=_input_arguments(case),
         weights=case["weights"] if case.get("weights_kind") == "list" else None,
-        weights_from_file=wpaths,
+        weights_from_file=wpaths, pipeline_seed=case.get("pipeline_seed"),
     )
 
 
@@ -400,10 +412,11 @@ def run_calibration(case):
             result_input_arguments=_input_arguments(case), pygmo_seed=case["pygmo_seed"],
             num_islands=case["islands"], num_evolutions=case["evolutions"],
             weights=case["weights"] if case["weights_kind"] == "list" else None, weights_from_file=wpaths,
+            pipeline_seed=case.get("pipeline_seed"),
         )
         _REC.clear()
         try:
-            dt = pyxel.run_mode(cal, pyx.make_detector("CCD", *case["det"]), _pipeline())
+            dt = pyxel.run_mode(cal, pyx.make_detector("CCD", *case["det"]), _pipeline(case))
         except Exception as e:  # noqa: BLE001
             return {"error": common.err_kind(e), "msg": str(e)[:300]}
         rec = list(_REC)
@@ -432,18 +445,34 @@ def run_calibration(case):
         except Exception as e:  # noqa: BLE001
             out["load_error"] = {"kind": common.err_kind(e), "msg": str(e)[:200]}
             return out
+        # the declared figure of merit evaluated on the RETURNED simulated data (one value per island)
+        dims = dims_of(case)
+        offs = case["offsets"] or [0.0]
+        returned = []
+        for isl in range(sim.shape[0]):
+            total = Fraction(0)
+            for pi in range(min(len(offs), len(case["targets"]), sim.shape[1])):
+                s_flat = [None if v != v else Fraction(float(v)) for v in sim[isl, pi].ravel().tolist()]
+                t_flat = flat3(restrict(to3(case["targets"][pi], case["target_shape"]), dims, "t"))
+                w_flat = flat3(restrict(weights3(case, pi), dims, "t"))
+                if len(s_flat) != len(t_flat):
+                    total = None
+                    break
+                total += fom(case["func"], case["free"], s_flat, t_flat, w_flat)
+            returned.append(None if total is None else float(total))
+        out["returned_fitness"] = returned
         indep = []
         for isl, params in enumerate(out["champion_parameters"]):
             p = params[-1]
             per_proc = []
             for off in (case["offsets"] or [0.0]):
-                pipe = _pipeline()
+                pipe = _pipeline(case)
                 args = pipe.charge_collection.models[0].arguments
                 args["a"] = p[0]
                 if not single:
                     args["v"] = [p[1], p[2]]
                 args["off"] = off
-                res = pyxel.run_mode(Exposure(readout=_readout(case)), pyx.make_detector("CCD", *case["det"]), pipe)
+                res = pyxel.run_mode(Exposure(readout=_readout(case), pipeline_seed=case.get("pipeline_seed")), pyx.make_detector("CCD", *case["det"]), pipe)
                 per_proc.append(np.asarray(res[rt].values, dtype=float))
             indep.append(per_proc)
         indep = np.array(indep)  # island, processor, time, y, x
@@ -583,6 +612,11 @@ def predicate_run(case, impl):
         key = "C11:resimulation-single-parameter" if case["single_parameter"] else "C11:simulated-unloadable"
         return (key, f"the returned simulated data cannot be computed ({'one calibrated parameter' if case['single_parameter'] else 'any calibration'}): "
                      f"{impl['load_error']['kind']} {impl['load_error']['msg']}")
+    for isl, (fs, rf) in enumerate(zip(impl["champion_fitness"], impl.get("returned_fitness", []))):
+        if rf is None or not feq(fs[-1], rf, 1e-9):
+            return ("C11:returned-data-fitness-mismatch",
+                    f"island {isl}: reported champion fitness {fs[-1]!r} but the figure of merit of the returned /simulated data on the declared "
+                    f"ranges/weights is {rf!r}" + (f" (pipeline_seed={case['pipeline_seed']}, stochastic model without own seed)" if case.get("stochastic") else ""))
     if not impl["full_equal"]:
         return ("C11:simulated-data-mismatch", "/full_size/simulated differs from an independent exposure at the reported champion parameters")
     if not impl["simulated_equal"]:
@@ -620,6 +654,7 @@ def body(ck: common.Check):
     fcases += [gen_fitness_case(rng, multi=True, weights=w) for w in ("list", "file", "list")]
     runs = [gen_run_case(rng, i) for i in range(6 if quick else 36)]
     runs += [gen_policy_run_case(rng, i) for i in range(4 if quick else 24)]
+    runs += [gen_stochastic_run_case(rng, i) for i in range(2 if quick else 12)]
     reqs = [{"op": "check", "dims": dims_of(c)} for c in rcases]
     reqs += [lean_fitness_request(c, x) for c in fcases for x in c["xs"]]
     answers = LeanDriver("C11").batch(reqs)
@@ -681,6 +716,7 @@ def body(ck: common.Check):
         ck.count("run_multi_readout", int(case["multi"]))
         ck.count("run_nlopt_policy=" + (case["nlopt"]["nlopt_selection"] if case.get("nlopt") else "default"))
         ck.count("run_evolutions=%d" % case["evolutions"])
+        ck.count("run_seeded_stochastic", int(bool(case.get("stochastic"))))
         pv = predicate_run(case, impl)
         if pv:
             ck.violation(pv[0], pv[1], {"case": case, "impl": {k2: v for k2, v in impl.items() if k2 != "evaluated"}})
@@ -696,6 +732,8 @@ def body(ck: common.Check):
                "abs / squared / reduced chi2, single and multi readout, pixel / signal / image; run: sade / sga / nlopt, 1-2 islands, 3 evolutions, "
                "+ nlopt with selection worst / random and replacement best, 3-6 evolutions, maxeval 3-6 (population best != champion): champion "
                "monotone per island and best champion = best fitness evaluated so far after every evolution; "
+               "+ seeded-stochastic runs (pipeline_seed declared, noise model without own seed): /simulated and /full_size vs an independent seeded "
+               "exposure at the reported parameters; every run with loaded data: figure of merit of the RETURNED /simulated data = reported champion fitness; "
                "one- and three-component decision vectors; non-trivial = some range declared")
     ck.assumptions = ["a 6-value *target* range on a multi-readout target fails in the constructor with \"Dimensions {'time'} do not exist\" on the "
                       "pinned tree (dimension named readout_time); counted as noted:3d-target-range, not judged",
